@@ -426,7 +426,16 @@ func (cx *Ctx) c07Histories(r *rng, n int, gc genCfg) map[string]any {
 				e2, _ := genGraph(r, gc)
 				hc := gc
 				hc.allowRandomGreedy = true // other calls of the history may use any configuration
-				calls = append(calls, spec.Call{Edges: e2, Opts: genOptions(r, e2, hc)})
+				oc := spec.Call{Edges: e2, Opts: genOptions(r, e2, hc)}
+				if r.chance(12) {
+					// ... or end abnormally: the documented panics on an empty source / a malformed edge
+					if r.chance(50) {
+						oc.Edges = [][]string{}
+					} else {
+						oc.Edges[r.intn(len(oc.Edges))] = []string{"x"}
+					}
+				}
+				calls = append(calls, oc)
 			}
 		}
 		jobs = append(jobs, &spec.Job{ID: i, Kind: "history", Calls: calls, Res: []spec.Resolution{{Adv: "identity"}}, Budgets: cx.Budgets})
